@@ -87,6 +87,7 @@ def run(chk):
     chk.section('Chunk.write', chunk_layout, mod)
     chk.section('Loop.write', loop_layout, mod)
     native_checks(chk)
+    chk.section('high-level content assembly', content_assembly)
     bounded_documents(chk)
 
 
@@ -265,6 +266,109 @@ def native_checks(chk):
         except ValueError:
             pass
     chk.decided(f'{MOD}:Block.name/refuses-white-space', not bad, detail=str(bad))
+
+
+def content_assembly(chk):
+    """[X] the functions that assemble the high-level content, on the real objects over their complete structural case space (concrete
+    values): which columns / pairs are produced, in which order, standard uncertainties as square roots of the variances, refusals.
+    Each result is written with the real writer and read back with the independent parser."""
+    import itertools
+    import numpy as np
+    import scipp as sc
+    from vf.realrun import real_module
+    from contracts.cif_ref import parse
+    cif = real_module('io.cif')
+    for f in ('_make_reduced_powder_loop', '_make_powder_calibration_loop', '_add_audit', '_reduced_powder_coord', '_normalize_reduced_powder_name'):
+        chk.function(MOD, f)
+
+    def read(item):
+        f = io.StringIO()
+        cif.save_cif(f, cif.Block('b', [item]))
+        blocks, _ = parse(f.getvalue())
+        return [it for it in blocks[0]['items'] if not (it[0] == 'loop' and it[1][0].startswith('audit_conform'))], f.getvalue()
+    cvals, cvar = np.array([1.25, 2.5, 7.0]), np.array([0.04, 0.09, 1e-6])
+    dvals, dvar = np.array([13.6, -2.0, 0.0]), np.array([0.7, 1.1, 4.0])
+    bad, cases = [], 0
+    for (dim, tag, unit), cv, dv, dunit, name, comment in itertools.product(
+            (('tof', 'pd_meas.time_of_flight', 'us'), ('dspacing', 'pd_proc.d_spacing', 'angstrom')), (False, True), (False, True), ('one', 'counts'),
+            (None, 'intensity_net', 'intensity_norm', 'intensity_total'), ('', 'a comment')):
+        cases += 1
+        da = sc.DataArray(sc.array(dims=[dim], values=dvals, variances=dvar if dv else None, unit=dunit),
+                          coords={dim: sc.array(dims=[dim], values=cvals, variances=cvar if cv else None, unit=unit)})
+        if name:
+            da.name = name
+        dtag = f'pd_proc.{name or "intensity_norm"}'
+        want = [('pd_data.point_id', [0.0, 1.0, 2.0]), (tag, cvals)] + ([(tag + '_su', np.sqrt(cvar))] if cv else []) + [(dtag, dvals)] + ([(dtag + '_su', np.sqrt(dvar))] if dv else [])
+        try:
+            items, text = read(cif._make_reduced_powder_loop(da, comment=comment))
+        except Exception as e:  # noqa: BLE001
+            bad.append(f'{dim},{cv},{dv},{dunit},{name}: raised {type(e).__name__}: {e}'[:200])
+            continue
+        ok = len(items) == 1 and items[0][0] == 'loop' and items[0][1] == [w[0] for w in want] and len(items[0][2]) == 3 and all(
+            np.allclose([float(r[j][0]) for r in items[0][2]], w[1], rtol=1e-14, atol=0) for j, w in enumerate(want))
+        ok = ok and (f'[{da.unit}]' in text) == (dunit != 'one') and (('# a comment' in text) == bool(comment))
+        if not ok:
+            bad.append(f'{dim},{cv},{dv},{dunit},{name},{comment!r}: {items}'[:300])
+    chk.decided(f'{MOD}:_make_reduced_powder_loop/columns point_id, coordinate[, su], intensity[, su] in this order; su == sqrt(variance); unit of the intensity in the comment[{cases} cases]',
+                not bad, detail='; '.join(bad)[:600])
+    base = sc.DataArray(sc.array(dims=['tof'], values=dvals, variances=dvar, unit='counts'), coords={'tof': sc.array(dims=['tof'], values=cvals, unit='us')})
+    refusals = {
+        'unknown dimension': (sc.DataArray(sc.array(dims=['two_theta'], values=dvals, variances=dvar, unit='counts'), coords={'two_theta': sc.array(dims=['two_theta'], values=cvals, unit='rad')}), sc.CoordError),
+        'two dimensions': (sc.DataArray(sc.zeros(dims=['tof', 'y'], shape=[2, 2]), coords={'tof': sc.arange('tof', 2.0, unit='us')}), sc.DimensionError),
+        'coordinate in another unit': (sc.DataArray(base.data, coords={'tof': sc.array(dims=['tof'], values=cvals, unit='ms')}), sc.UnitError),
+    }
+    named = base.copy()
+    named.name = 'counts'
+    refusals['unknown name'] = (named, ValueError)
+    badr = []
+    for label, (da, exc) in refusals.items():
+        try:
+            cif._make_reduced_powder_loop(da, comment='')
+            badr.append(f'{label}: accepted')
+        except exc:
+            pass
+        except Exception as e:  # noqa: BLE001
+            badr.append(f'{label}: {type(e).__name__} instead of {exc.__name__}')
+    chk.decided(f'{MOD}:_make_reduced_powder_loop/refuses data it cannot label[{len(refusals)} cases]', not badr, detail='; '.join(badr))
+    # calibration table
+    bad, cases = [], 0
+    ids = {0: 'ZERO', 1: 'DIFC', 2: 'DIFA', -1: 'DIFB'}
+    for powers, var in itertools.product(([0], [1, 0], [0, 1, 2, -1], [3, -2, 1], [2, 4, -1, 0, 1]), (False, True)):
+        cases += 1
+        vals = np.array([3.4, 0.2, -1e-7, 5.0, 2.5e9][:len(powers)])
+        vr = np.array([0.1, 0.2, 0.3, 0.4, 9.0][:len(powers)])
+        cal = sc.DataArray(sc.array(dims=['cal'], values=vals, variances=vr if var else None), coords={'power': sc.array(dims=['cal'], values=powers)})
+        try:
+            items, _ = read(cif._make_powder_calibration_loop(cal, comment=''))
+        except Exception as e:  # noqa: BLE001
+            bad.append(f'{powers},{var}: raised {type(e).__name__}: {e}'[:200])
+            continue
+        tags = ['pd_calib_d_to_tof.id', 'pd_calib_d_to_tof.power', 'pd_calib_d_to_tof.coeff'] + (['pd_calib_d_to_tof.coeff_su'] if var else [])
+        rows = items[0][2] if len(items) == 1 and items[0][0] == 'loop' else []
+        ok = bool(rows) and items[0][1] == tags and len(rows) == len(powers)
+        ok = ok and all(r[0][0] == ids.get(p_, f'c{p_}'.replace('-', '_')) and float(r[1][0]) == p_ and np.isclose(float(r[2][0]), v, rtol=1e-14, atol=0)
+                        and (not var or np.isclose(float(r[3][0]), np.sqrt(w), rtol=1e-14, atol=0)) for r, p_, v, w in zip(rows, powers, vals, vr))
+        ok = ok and len({r[0][0] for r in rows}) == len(rows)
+        if not ok:
+            bad.append(f'{powers},{var}: {items}'[:300])
+    chk.decided(f'{MOD}:_make_powder_calibration_loop/one row per coefficient in order: id (ZERO, DIFC, DIFA, DIFB or unique), power, coefficient[, su == sqrt(variance)][{cases} cases]',
+                not bad, detail='; '.join(bad)[:600])
+    # audit entries
+    bad = []
+    for reds in ([], ['one tool 1.0'], ['a 1', 'b 2'], ['a 1', 'b 2', "c'3", 'a 1']):
+        blk = cif.Block('b')
+        cif._add_audit(blk, list(reds))
+        f = io.StringIO()
+        cif.save_cif(f, blk)
+        items = parse(f.getvalue())[0][0]['items']
+        got = [it[2] for it in items if it[0] == 'pair' and it[1] == 'computing.diffrn_reduction']
+        for it in items:
+            if it[0] == 'loop' and 'computing.diffrn_reduction' in it[1]:
+                got += [r[0][0] for r in it[2]]
+        pairs = {it[1] for it in items if it[0] == 'pair'}
+        if got != reds or not {'audit.creation_date', 'audit.creation_method'} <= pairs:
+            bad.append(f'{reds}: {got}, {sorted(pairs)}')
+    chk.decided(f'{MOD}:_add_audit/creation date and method, every reducer once and in order[0, 1, 2, 4 reducers]', not bad, detail='; '.join(bad)[:400])
 
 
 # ---- bounded: whole documents through the independent parser -------------------------------------------------------------------------------
@@ -451,29 +555,89 @@ def author_failures(limit=3):
     return n, fails
 
 
+def _num(x):
+    try:
+        return float(x)
+    except (TypeError, ValueError):
+        return None
+
+
 def builder_sequence_failures(n, seed, limit=3):
-    """random TREES of builder calls (with_reducers / with_authors on the base, on intermediate builders, on siblings): every builder,
-    saved and parsed independently, holds exactly what was supplied along its own path -- and still does after its siblings were built"""
+    """random TREES of builder calls (with_reducers / with_authors / with_beamline / with_reduced_powder_data / with_powder_calibration on
+    the base, on intermediate builders, on siblings): every builder, saved and parsed independently, holds exactly what was supplied
+    along its own path, in call order -- and still does after its siblings were built.  Standard-uncertainty columns are the square
+    roots of the variances, numbers come back to printed precision, strings as supplied."""
     import random
+    import numpy as np
+    import scipp as sc
     from vf.realrun import real_module
     from contracts.cif_ref import parse, CifSyntaxError
     cif = real_module('io.cif')
     md = real_module('metadata')
     rnd = random.Random(seed)
+    rng = np.random.default_rng(seed)
     names = ['mantid 6.9', 'essdiffraction 24.1', 'nmx-tools 0.3', 'scipp', "o'neil 1", 'tool_x']
     people = ['A One', 'B Two', 'C Three', 'D Four']
+    sources = [None, md.ESS_SOURCE, md.Source(source_type=md.SourceType.ReactorNeutronSource, probe=md.RadiationProbe.Neutron),
+               md.Source(source_type=md.SourceType.SynchrotronXraySource, probe=md.RadiationProbe.Xray)]
+    device = {md.SourceType.SpallationNeutronSource: 'spallation', md.SourceType.ReactorNeutronSource: 'nuclear', md.SourceType.SynchrotronXraySource: 'synch'}
+    probe = {md.SourceType.SpallationNeutronSource: 'neutron', md.SourceType.ReactorNeutronSource: 'neutron', md.SourceType.SynchrotronXraySource: 'x-ray'}
+
+    def numbers(k):
+        v = rng.normal(size=k) * 10.0 ** rng.integers(-8, 9, k)
+        return np.where(rng.random(k) < 0.1, 0.0, v)
+
+    def beamline_call(b):
+        bl = md.Beamline(name=rnd.choice(['DREAM', 'POWGEN 2', "o'neil", 'data_x', 'BL_1']), facility=rnd.choice(['ESS', 'ess', 'ILL', 'Diamond Light', None]))
+        src = rnd.choice(sources)
+        want = [('diffrn_source.beamline', bl.name)] + ([('diffrn_source.facility', bl.facility)] if bl.facility is not None else [])
+        if src is not None:
+            want = [('diffrn_radiation.probe', probe[src.source_type])] + want + [('diffrn_source.device', device[src.source_type])]
+        return b.with_beamline(bl, src, comment=rnd.choice(['', 'beamline'])), ('pairs', want, src is None)
+
+    def data_call(b):
+        k = rnd.randint(1, 6)
+        dim, tag, unit = rnd.choice([('tof', 'pd_meas.time_of_flight', 'us'), ('dspacing', 'pd_proc.d_spacing', 'angstrom')])
+        cvals, cvar = np.sort(np.abs(numbers(k))) + 1e-9, (np.abs(numbers(k)) + 1e-12 if rnd.random() < 0.5 else None)
+        dvals, dvar = numbers(k), (np.abs(numbers(k)) + 1e-12 if rnd.random() < 0.6 else None)
+        name = rnd.choice([None, 'intensity_net', 'intensity_norm', 'intensity_total'])
+        da = sc.DataArray(sc.array(dims=[dim], values=dvals, variances=dvar, unit=rnd.choice(['counts', 'one'])),
+                          coords={dim: sc.array(dims=[dim], values=cvals, variances=cvar, unit=unit)})
+        if name is not None:
+            da.name = name
+        dtag = f'pd_proc.{name or "intensity_norm"}'
+        cols = [('pd_data.point_id', np.arange(k, dtype=float)), (tag, cvals)] + ([(tag + '_su', np.sqrt(cvar))] if cvar is not None else []) + [(dtag, dvals)] \
+            + ([(dtag + '_su', np.sqrt(dvar))] if dvar is not None else [])
+        return b.with_reduced_powder_data(da, comment=rnd.choice(['', 'reduced data'])), ('loop', cols)
+
+    def calibration_call(b):
+        powers = rnd.sample([0, 1, 2, -1, 3, -2, 4], rnd.randint(1, 4))
+        k = len(powers)
+        vals, var = numbers(k), (np.abs(numbers(k)) + 1e-12 if rnd.random() < 0.5 else None)
+        cal = sc.DataArray(sc.array(dims=['cal'], values=vals, variances=var), coords={'power': sc.array(dims=['cal'], values=powers)})
+        cols = [('pd_calib_d_to_tof.id', None), ('pd_calib_d_to_tof.power', np.array(powers, dtype=float)), ('pd_calib_d_to_tof.coeff', vals)] \
+            + ([('pd_calib_d_to_tof.coeff_su', np.sqrt(var))] if var is not None else [])
+        return b.with_powder_calibration(cal, comment=rnd.choice(['', 'calibration'])), ('loop', cols)
     fails = []
     for i in range(n):
-        nodes = [(cif.CIF('blk'), [], [])]          # (builder, reducers, authors) along the path
+        nodes = [(cif.CIF('blk'), [], [], [])]          # (builder, reducers, authors, content) along the path
         for _ in range(rnd.randint(2, 7)):
-            b, reds, auths = nodes[rnd.randrange(len(nodes))]
-            if rnd.random() < 0.6:
-                new = rnd.sample(names, rnd.randint(1, 2))
-                nodes.append((b.with_reducers(*new), reds + new, auths))
-            else:
-                new = rnd.sample(people, 1)
-                nodes.append((b.with_authors(*[md.Person(name=x) for x in new]), reds, auths + new))
-        for k, (b, reds, auths) in enumerate(nodes):
+            b, reds, auths, content = nodes[rnd.randrange(len(nodes))]
+            r = rnd.random()
+            try:
+                if r < 0.3:
+                    new = rnd.sample(names, rnd.randint(1, 2))
+                    nodes.append((b.with_reducers(*new), reds + new, auths, content))
+                elif r < 0.45:
+                    new = rnd.sample(people, 1)
+                    nodes.append((b.with_authors(*[md.Person(name=x) for x in new]), reds, auths + new, content))
+                else:
+                    nb, item = (beamline_call if r < 0.6 else data_call if r < 0.85 else calibration_call)(b)
+                    nodes.append((nb, reds, auths, [*content, item]))
+            except Exception as e:  # noqa: BLE001
+                fails.append({'id': f'tree{i}', 'index': i, 'seed': seed, 'problem': f'builder call raised {type(e).__name__}: {e}'[:300]})
+                break
+        for k, (b, reds, auths, content) in enumerate(nodes):
             f = io.StringIO()
             try:
                 b.save(f)
@@ -481,22 +645,73 @@ def builder_sequence_failures(n, seed, limit=3):
             except CifSyntaxError as e:
                 fails.append({'id': f'tree{i}-{k}', 'index': i, 'seed': seed, 'problem': f'not valid CIF: {e}'})
                 break
-            got_r, got_a = [], []
+            except Exception as e:  # noqa: BLE001
+                fails.append({'id': f'tree{i}-{k}', 'index': i, 'seed': seed, 'problem': f'save raised {type(e).__name__}: {e}'[:300]})
+                break
+            got_r, got_a, rest = [], [], []
             for it in blocks[0]['items']:
                 if it[0] == 'pair':
                     if it[1] == 'computing.diffrn_reduction':
                         got_r.append(it[2])
-                    if it[1] in ('audit_author.name', 'audit_contact_author.name'):
+                    elif it[1] in ('audit_author.name', 'audit_contact_author.name'):
                         got_a.append(it[2])
+                    elif not it[1].startswith(('audit', 'computing')):
+                        rest.append(it)
                 elif it[0] == 'loop':
+                    hit = False
                     for tag, dst in (('computing.diffrn_reduction', got_r), ('audit_author.name', got_a), ('audit_contact_author.name', got_a)):
                         if tag in it[1]:
                             j = it[1].index(tag)
                             dst += [r[j][0] for r in it[2]]
+                            hit = True
+                    if not hit and not it[1][0].startswith(('audit', 'computing')):
+                        rest.append(it)
+            prob = None
             if got_r != reds or sorted(got_a) != sorted(auths):
+                prob = 'a builder writes reducers / authors that were supplied to another builder (or drops its own)'
+            pos = 0
+            for item in content if prob is None else []:
+                if item[0] == 'pairs':
+                    want, inferred = item[1], item[2]
+                    got, last = [], -1
+                    order = ['diffrn_radiation.probe', 'diffrn_source.beamline', 'diffrn_source.facility', 'diffrn_source.device']
+                    # pairs are flat in a CIF: one beamline chunk is a run of these tags in their fixed order
+                    while pos < len(rest) and rest[pos][0] == 'pair' and rest[pos][1] in order and order.index(rest[pos][1]) > last:
+                        last = order.index(rest[pos][1])
+                        got.append((rest[pos][1], rest[pos][2]))
+                        pos += 1
+                    if inferred:   # without a source the probe / device may be inferred from the facility: not part of what was supplied
+                        got = [g for g in got if g[0] in ('diffrn_source.beamline', 'diffrn_source.facility')]
+                    if got != want:
+                        prob = f'beamline chunk: written {got}, supplied {want}'
+                        break
+                else:
+                    cols = item[1]
+                    if pos >= len(rest) or rest[pos][0] != 'loop':
+                        prob = f'expected the loop {[c[0] for c in cols]} at this position, found {rest[pos][:2] if pos < len(rest) else "the end of the block"}'
+                        break
+                    _, tags, rows = rest[pos]
+                    pos += 1
+                    if tags != [c[0] for c in cols]:
+                        prob = f'loop columns {tags}, supplied (in this order) {[c[0] for c in cols]}'
+                        break
+                    if len(rows) != len(cols[1][1]) or any(len(r) != len(cols) for r in rows):
+                        prob = f'loop shape {len(rows)} x {len(tags)}, supplied {len(cols[1][1])} x {len(cols)}'
+                        break
+                    for j, (tag, vals) in enumerate(cols):
+                        if vals is None:
+                            continue
+                        gotv = [_num(r[j][0]) for r in rows]
+                        if any(g is None for g in gotv) or not np.allclose(gotv, vals, rtol=1e-14, atol=0):
+                            prob = f'column {tag}: written {[r[j][0] for r in rows][:4]}, supplied {list(vals)[:4]}' + (' (the square roots of the variances)' if tag.endswith('_su') else '')
+                            break
+                    if prob:
+                        break
+            if prob is None and pos != len(rest):
+                prob = f'the block holds {len(rest) - pos} more item(s) than were supplied to this builder: {[x[1] for x in rest[pos:]][:3]}'
+            if prob:
                 fails.append({'id': f'tree{i}-{k}', 'index': i, 'seed': seed, 'builder': k, 'supplied_reducers': reds, 'written_reducers': got_r,
-                              'supplied_authors': auths, 'written_authors': got_a,
-                              'problem': 'a builder writes values that were supplied to another builder (or drops its own)'})
+                              'supplied_authors': auths, 'written_authors': got_a, 'problem': prob})
                 break
         if len(fails) >= limit:
             break
@@ -527,7 +742,7 @@ def bounded_documents(chk):
     nb = 60 if chk.tier == 'quick' else 1500
     bf = builder_sequence_failures(nb, 33 + chk.seed)
     chk.bounded_check('builder-call-trees', 'real CIF builders branched and extended in random order, each saved and parsed independently',
-                      f'{nb} trees of 3..8 builders (with_reducers / with_authors on base, intermediate and sibling builders)', nb, bf)
+                      f'{nb} trees of 3..8 builders (with_reducers / with_authors / with_beamline / with_reduced_powder_data / with_powder_calibration on base, intermediate and sibling builders)', nb, bf)
     chk.bounded_check('author-and-role-ids', 'real CIF.with_authors(...).save parsed independently', f'{m} author lists (1..4 authors, roles, contact flags)', m, af)
 
 
@@ -552,6 +767,22 @@ def replay(rec):
         fails = builder_sequence_failures(int(f.get('index', 0)) + 1, int(f.get('seed', 33)), limit=10 ** 6)
         hit = [x for x in fails if x['index'] == f.get('index')]
         return {'reproduced': bool(hit), 'case': hit[:1]}
+    if any(t in name for t in ('_make_reduced_powder_loop', '_make_powder_calibration_loop', '_add_audit')):
+        # the enumeration runs on the real objects: run it again and report the clause that fails
+        class Collect:
+            def __init__(self):
+                self.res = []
+
+            def function(self, *a):
+                pass
+
+            def decided(self, nm, ok, detail='', meta=None):
+                self.res.append((nm, bool(ok), detail))
+        c = Collect()
+        content_assembly(c)
+        clause = name.split(':', 1)[-1].split('[')[0]
+        hit = [(n_, d) for n_, ok, d in c.res if not ok and clause.split('/')[0] in n_]
+        return {'reproduced': bool(hit), 'cases': [{'clause': n_, 'witness': d[:600]} for n_, d in hit[:2]]}
     cands = []
     import re
     for k in ('s', 'a', 'b'):
